@@ -340,7 +340,11 @@ pub fn run_check<P: Prop>(p: &P, tier: Tier) -> i32 {
         if let Some(f) = findings
             .findings
             .iter()
-            .find(|f| f.property == p.id() && f.status == "open" && f.key == v.key)
+            .find(|f| {
+                f.property == p.id()
+                    && f.status == "open"
+                    && (f.key == v.key || (f.key.ends_with('*') && v.key.starts_with(f.key.trim_end_matches('*'))))
+            })
         {
             *known_hits.entry(f.key.clone()).or_insert(0) += 1;
             if known_printed.insert(f.key.clone()) {
